@@ -311,3 +311,28 @@ PROPS["C12"] = dict(
     level_note="ES256K is outside the common support matrix (GnuTLS lacks it). Non-canonical base64 of a valid signature is neither 'RFC-valid' nor 'not validly signed' and is excluded.",
     design_ref="DESIGN.md section 7, C12",
 )
+
+
+PROPS["C06"] = dict(
+    level="exploration", leak_every=20, exhaustive=False,
+    stages=lambda tier, seed: [
+        mc("classes", "MC_C06", "MC_C06_%s.cfg" % tier, expand=G.replicate(1 if tier == "quick" else 20)),
+        gen("fuzz", G.c06_fuzz(800 if tier == "quick" else 40000, 250), target_ops=60000),
+    ],
+    rule="(classes) from MC_C06: every shape (NULL, empty, 0/1/2/3/4 dots, leading dot) x header class (object, "
+         "whitespace, not JSON, array, scalar, string, null, not base64, length 1 mod 4, empty, {}, duplicate keys) x "
+         "payload class x 14 alg spellings (incl. missing and each non-string JSON type) x signature class, one "
+         "dimension at a time plus header x payload pairs, against key-less, HS256, RS256, ES256 and EdDSA checkers on "
+         "both providers: the class is known by construction, so rejection is judged; (fuzz) seeded byte-level "
+         "mutations (set/delete/insert of structural and high-bit bytes, truncation, duplication, padding to 64 KiB) "
+         "of tokens the library generated itself, and random byte strings of 0..64 KiB, 250 per case, under the same "
+         "eight configurations: these constrain only 'the call returns, no sanitizer report, no leak'. Recorded under "
+         "ASan+UBSan, LeakSanitizer check every 20 cases and at exit, 20 s watchdog per case. distinct = distinct "
+         "scripts (fuzz cases differ in every token).",
+    assumptions=ASSUME_COMMON + ["byte-level inputs are generated without coverage feedback; this is weaker than a coverage-guided fuzzer"],
+    level_text="Exploration: the structural classes of the specification's Parse function are enumerated completely "
+               "and judged (non-zero for every malformed class); memory safety, termination and leak freedom are "
+               "observed on those and on seeded byte-level fuzz under sanitizers.",
+    level_note="The first sentence of C06 quantifies over all byte strings; TLA+ contributes structured generation and the functional oracle, not coverage of the byte space.",
+    design_ref="DESIGN.md section 7, C06",
+)
